@@ -97,11 +97,12 @@ def split_runs(path):
     return runs
 
 
-def validate_trace_file(module, consts, path, wd, tag):
+def validate_trace_file(module, consts, path, wd, tag, invariant=None):
     """Validate one ndjson file with a Trace_* module. Returns (accepted_runs, rejected list)."""
+    inv = f"INVARIANT {invariant}\n" if invariant else ""
     cfg = f"""CONSTANTS {consts}
 SPECIFICATION TSpec
-POSTCONDITION Accepted
+{inv}POSTCONDITION Accepted
 CHECK_DEADLOCK FALSE
 """
     runs = split_runs(path)
